@@ -68,6 +68,15 @@ def _report(root, kind):
         k = body.index(loop)
         init = [s for s in body[:k] if _assigned(s) & TRACKED]
         kept = [s for s in loop.body if _assigned(s) & TRACKED]
+        # a kept statement may read a local that is computed by a plain assignment of the same loop body (a hoisted
+        # sub-expression): that assignment belongs to the slice as well
+        while True:
+            read = {n.id for s in kept for n in ast.walk(s) if isinstance(n, ast.Name) and isinstance(n.ctx, ast.Load)}
+            more = [s for s in loop.body if s not in kept and isinstance(s, ast.Assign) and len(s.targets) == 1
+                    and isinstance(s.targets[0], ast.Name) and s.targets[0].id in read]
+            if not more:
+                break
+            kept = [s for s in loop.body if s in kept or s in more]
         dropped = [s for s in loop.body if s not in kept]
         # `kept` statements may assign only tracked names / loop targets; dropped ones must not touch the tracked names nor return
         for s in dropped:
